@@ -16,6 +16,8 @@
                                                      id-less FS take a generated id, the dict all_fs keyed by id
                                                      detects a second *object* under one id (ValueError)
      CasXmiSerializer / CasJsonSerializer         -> the document holds the FS of all_fs plus every sofa (id, sofaNum)
+     CasJsonDeserializer, views without a sofa    -> load_doc_views: create_view per name declared only in %VIEWS, after
+                                                     the generators were restarted
      CasXmiDeserializer / CasJsonDeserializer     -> load_doc: _InitialView of Cas() is overwritten when the document
                                                      has a sofa of that name; otherwise it takes max+1 / max+1 beyond
                                                      the document (941f890); other sofas keep id and sofaNum, FS keep
@@ -249,6 +251,12 @@ Definition step (s : st) (o : op) : st * obs :=
   end.
 
 Definition run (s : st) (h : list op) : st := fold_left (fun s' o => fst (step s' o)) h s.
+
+(* JSON only: a view that is declared in the %VIEWS section but has no Sofa feature structure in the document is created by
+   the reader itself, after both generators were restarted beyond the document (json.py:211-219): cas.create_view(name)
+   per such name, in the order of the section; a name that exists already (_InitialView, a sofa of the document) creates
+   nothing.  The members listed for it are added with keep_id=True: their ids are the document's (d_member = true). *)
+Definition load_doc_views (d : doc) (vs : list string) : st := run (load_doc d) (map OpCreateView vs).
 
 (* states and observations after every step, for the correspondence check *)
 Fixpoint trace (s : st) (h : list op) : list (st * obs) :=
